@@ -99,13 +99,18 @@ rc::Gen<std::vector<uint64_t>> gen_extents(size_t N, uint64_t max_side)
     return rc::gen::container<std::vector<uint64_t>>(N, side);
 }
 
-template <Lay L1, Lay L2, size_t N, class T, size_t M>
+template <Lay L1, Lay L2, size_t N, class T, size_t M, class I = std::size_t>
 struct Conv {
-    using IV = cv::vector_d<std::size_t, N>;
+    using IV = cv::vector_d<I, N>;
     using A = cb::array<cv::vector_d<T, M>>;
     using B1 = layout_t<L1, IV, A>;
     using B2 = layout_t<L2, IV, A>;
-    static std::string name() { return std::string("convert/") + lay_name(L1) + "->" + lay_name(L2) + "/N=" + std::to_string(N) + "/T=" + tname<T>() + "/M=" + std::to_string(M); }
+    static std::string name()
+    {
+        return std::string("convert/") + lay_name(L1) + "->" + lay_name(L2) + "/N=" + std::to_string(N) + "/T=" + tname<T>() + "/M=" + std::to_string(M) + (std::is_same_v<I, std::size_t> ? "" : std::string("/I=") + tname<I>());
+    }
+    // converting INTO row-major hands the source view a size_t coordinate: only possible with size_t coordinates
+    static constexpr bool can_convert_back = !(L1 == Lay::strided && !std::is_same_v<I, std::size_t>);
 
     template <class B>
     static covfie::field<B> build(const std::vector<uint64_t> & ext)
@@ -135,7 +140,7 @@ struct Conv {
             }
             typename covfie::field<B>::coordinate_t x;
             for (size_t k = 0; k < N; ++k) {
-                x[k] = cc[k];
+                x[k] = static_cast<std::decay_t<decltype(x[k])>>(cc[k]);
             }
             auto & r = v.at(x);
             uint64_t rk = uint64_t(ref::row_major(cc, c.ext));
@@ -160,7 +165,7 @@ struct Conv {
             for_box(c.ext, [&](const std::vector<uint64_t> & cc) {
                 typename covfie::field<B1>::coordinate_t x;
                 for (size_t k = 0; k < N; ++k) {
-                    x[k] = cc[k];
+                    x[k] = static_cast<std::decay_t<decltype(x[k])>>(cc[k]);
                 }
                 auto & r = v.at(x);
                 uint64_t rk = uint64_t(ref::row_major(cc, c.ext));
@@ -186,14 +191,16 @@ struct Conv {
         if (auto b = holds("source field after the conversion", src, c)) {
             return b;
         }
-        covfie::field<B1> back(*dst);
-        if (auto b = holds("field converted back", back, c)) {
-            return b;
-        }
-        // byte-for-byte only where the storage has no padding cells (row-major): what padding cells of curve layouts
-        // hold is not part of this property (values at every lattice coordinate were compared above)
-        if (L1 == Lay::strided ? dump_of(back) != d0 : dump_of(back).size() != d0.size()) {
-            return std::string("converting back does not reproduce the original dump");
+        if constexpr (can_convert_back) {
+            covfie::field<B1> back(*dst);
+            if (auto b = holds("field converted back", back, c)) {
+                return b;
+            }
+            // byte-for-byte only where the storage has no padding cells (row-major): what padding cells of curve layouts
+            // hold is not part of this property (values at every lattice coordinate were compared above)
+            if (L1 == Lay::strided ? dump_of(back) != d0 : dump_of(back).size() != d0.size()) {
+                return std::string("converting back does not reproduce the original dump");
+            }
         }
         bool cube_pow2 = true;
         for (auto e : c.ext) {
@@ -279,7 +286,7 @@ struct Stack {
             }
             typename SB::contravariant_input_t::vector_t x;
             for (size_t k = 0; k < N; ++k) {
-                x[k] = cc[k];
+                x[k] = static_cast<std::decay_t<decltype(x[k])>>(cc[k]);
             }
             auto & r = v.at(x);
             uint64_t rk = uint64_t(ref::row_major(cc, c.ext));
@@ -316,7 +323,7 @@ struct Stack {
             for_box(c.ext, [&](const std::vector<uint64_t> & cc) {
                 typename covfie::field<S1>::coordinate_t x;
                 for (size_t k = 0; k < N; ++k) {
-                    x[k] = cc[k];
+                    x[k] = static_cast<std::decay_t<decltype(x[k])>>(cc[k]);
                 }
                 auto & r = v.at(x);
                 uint64_t rk = uint64_t(ref::row_major(cc, c.ext));
@@ -418,7 +425,7 @@ struct ToDevice {
             for_box(c.ext, [&](const std::vector<uint64_t> & cc) {
                 typename covfie::field<B1>::coordinate_t x;
                 for (size_t k = 0; k < N; ++k) {
-                    x[k] = cc[k];
+                    x[k] = static_cast<std::decay_t<decltype(x[k])>>(cc[k]);
                 }
                 auto & r = v.at(x);
                 uint64_t rk = uint64_t(ref::row_major(cc, c.ext));
@@ -446,7 +453,7 @@ struct ToDevice {
             }
             typename covfie::field<B2>::coordinate_t x;
             for (size_t k = 0; k < N; ++k) {
-                x[k] = cc[k];
+                x[k] = static_cast<std::decay_t<decltype(x[k])>>(cc[k]);
             }
             auto & r = dv.at(x);
             uint64_t rk = uint64_t(ref::row_major(cc, c.ext));
@@ -505,6 +512,12 @@ void register_all()
     Conv<Lay::strided, Lay::hilbert, 2, float, 4>::reg();
     Conv<Lay::morton_bmi2, Lay::hilbert, 2, double, 2>::reg();
     Conv<Lay::morton_port, Lay::hilbert, 2, float, 3>::reg();
+    // narrower coordinate scalars (curve <-> curve and row-major -> curve; extents beyond 2^(bits/N))
+    Conv<Lay::morton_port, Lay::morton_bmi2, 2, float, 1, uint16_t>::reg();
+    Conv<Lay::morton_bmi2, Lay::morton_port, 2, double, 2, uint16_t>::reg();
+    Conv<Lay::strided, Lay::morton_bmi2, 2, float, 2, uint16_t>::reg();
+    Conv<Lay::strided, Lay::hilbert, 2, double, 1, unsigned>::reg();
+    Conv<Lay::hilbert, Lay::morton_port, 2, float, 1, int>::reg();
 #elif VF_GROUP == 2
     reg_pairs_no_hilbert<4, float, 4, double, 1>();
 #elif VF_GROUP == 3
